@@ -12,98 +12,13 @@ use libtw2_snapshot::snap::Builder;
 use libtw2_snapshot::snap::Delta;
 use libtw2_snapshot::Snap;
 use serde_json::json;
-use std::collections::BTreeMap;
 use uuid::Uuid;
 use verif_harness::catch;
-use verif_harness::snapgen::value;
 use verif_harness::Ctx;
 use verif_harness::Rng;
 use verif_harness::Warnings;
 
-type Typed = BTreeMap<(TypeId, u16), Vec<i32>>;
-
-fn gen_typed(rng: &mut Rng) -> (Typed, Vec<(TypeId, u16)>) {
-    let nitems = if cfg!(miri) { rng.range(0, 20) as usize } else { match rng.below(7) {
-        0 => 0,
-        1 => 1,
-        2 => rng.range(1, 10) as usize,
-        3 => rng.range(10, 100) as usize,
-        4 => 1024,
-        _ => rng.range(1, 1024) as usize,
-    } };
-    let nuuid = match rng.below(6) {
-        0 => 0,
-        1 => 1,
-        2 => 2,
-        3 => rng.range(2, 8) as usize,
-        _ => rng.range(0, 40) as usize,
-    };
-    let uuids: Vec<Uuid> = (0..nuuid)
-        .map(|_| {
-            let mut b = [0u8; 16];
-            rng.fill(&mut b);
-            if rng.chance(1, 8) {
-                b = [0; 16];
-                b[15] = rng.u8();
-            }
-            Uuid::from_bytes(b)
-        })
-        .collect();
-    let nord = rng.range(1, 6) as usize;
-    let ords: Vec<u16> = (0..nord)
-        .map(|_| match rng.below(4) {
-            0 => 1,
-            1 => 0x3fff,
-            _ => rng.range(1, 0x3fff) as u16,
-        })
-        .collect();
-    let maxw = *rng.pick(&[0usize, 1, 4, 16, 100, 2000]);
-    let mut m = Typed::new();
-    let mut order = Vec::new();
-    let mut bytes = 8usize;
-    let mut types_used = std::collections::BTreeSet::new();
-    let mut guard = 0;
-    while order.len() < nitems && guard < nitems * 4 + 8 {
-        guard += 1;
-        let t = if !uuids.is_empty() && rng.chance(1, 2) { TypeId::Uuid(*rng.pick(&uuids)) } else { TypeId::Ordinal(*rng.pick(&ords)) };
-        let id = match rng.below(4) {
-            0 => rng.below(3) as u16,
-            1 => 0xffff - rng.below(3) as u16,
-            _ => rng.below(0x10000) as u16,
-        };
-        let len = match rng.below(4) {
-            0 => 0,
-            1 => rng.usize_below(4),
-            _ => rng.usize_below(maxw + 1),
-        };
-        if m.contains_key(&(t, id)) {
-            continue;
-        }
-        // stay inside the limits: registry items count as items, too
-        let new_type = matches!(t, TypeId::Uuid(_)) && !types_used.contains(&t);
-        let items_after = order.len() + types_used.iter().filter(|t| matches!(t, TypeId::Uuid(_))).count() + 1 + new_type as usize;
-        let bytes_after = bytes + 8 + 4 * len + if new_type { 8 + 16 } else { 0 };
-        if items_after > 1024 || bytes_after > 65536 {
-            continue;
-        }
-        bytes = bytes_after;
-        types_used.insert(t);
-        m.insert((t, id), (0..len).map(|_| value(rng)).collect());
-        order.push((t, id));
-    }
-    (m, order)
-}
-
-fn typed_json(m: &Typed) -> serde_json::Value {
-    json!(m.iter().map(|(k, d)| json!([format!("{:?}", k.0), k.1, d.len()])).collect::<Vec<_>>())
-}
-
-fn build(order: &[(TypeId, u16)], m: &Typed, mut b: Builder) -> Result<Snap, String> {
-    for k in order {
-        b.add_item(k.0, k.1, &m[k]).map_err(|e| format!("{:?}", e))?;
-    }
-    Ok(b.finish())
-}
+use verif_harness::snapgen::{build_typed as build, gen_typed, typed_json, Typed};
 
 /// Is `copy` indistinguishable from what the model says?
 fn indistinguishable(copy: &Snap, m: &Typed, absent: &[(TypeId, u16)]) -> Result<(), (String, String)> {
@@ -213,6 +128,34 @@ fn one(ctx: &mut Ctx, rng: &mut Rng) {
             return Err(("delta".into(), "warning".into(), format!("{:?}", w.0)));
         }
         indistinguishable(&copy4, &m, &absent).map_err(st("after-delta-from-pred"))?;
+        // destination objects are reused (Storage's free list, the demo reader's snapshot pair):
+        // read a second, unrelated snapshot into Snap objects that already hold this one
+        {
+            let (m2, order2) = gen_typed(rng);
+            let s2 = build(&order2, &m2, Builder::new()).map_err(|e| ("build-second".to_string(), "builder-refused".to_string(), e))?;
+            let mut bytes2: Vec<u8> = Vec::with_capacity(400_000);
+            with_packer(&mut bytes2, |p| s2.write(&mut buf, p).map(|_| ())).map_err(|_| ("write-second".to_string(), "capacity".to_string(), String::new()))?;
+            let mut w2 = Warnings::new();
+            // `copy` holds the first snapshot (read from bytes), `copy2` the same (read from ints), `copy3` from a delta
+            copy.read(&mut w2, &mut tmp, &bytes2).map_err(|e| ("reused-destination-read-bytes".to_string(), format!("{:?}", e), String::new()))?;
+            indistinguishable(&copy, &m2, &absent).map_err(st("reused-destination-after-bytes"))?;
+            let n2 = s2.write_to_ints(&mut buf, &mut ints).map_err(|_| ("write-second-ints".to_string(), "capacity".to_string(), String::new()))?.len();
+            copy2.read_from_ints(&mut w2, &ints[..n2]).map_err(|e| ("reused-destination-read-ints".to_string(), format!("{:?}", e), String::new()))?;
+            indistinguishable(&copy2, &m2, &absent).map_err(st("reused-destination-after-ints"))?;
+            delta.create(&empty, &s2);
+            copy3.read_with_delta(&mut w2, &empty, &delta).map_err(|e| ("reused-destination-delta".to_string(), format!("{:?}", e), String::new()))?;
+            indistinguishable(&copy3, &m2, &absent).map_err(st("reused-destination-after-delta"))?;
+            // and back again to the first one, then to the empty snapshot
+            copy3.read(&mut w2, &mut tmp, &bytes).map_err(|e| ("reused-destination-read-bytes".to_string(), format!("{:?}", e), String::new()))?;
+            indistinguishable(&copy3, &m, &absent).map_err(st("reused-destination-back-to-first"))?;
+            copy3.read_from_ints(&mut w2, &[0, 0]).map_err(|e| ("reused-destination-read-empty".to_string(), format!("{:?}", e), String::new()))?;
+            indistinguishable(&copy3, &Typed::new(), &absent).map_err(st("reused-destination-after-empty"))?;
+            if !w2.is_empty() {
+                return Err(("reused-destination".into(), "warning".into(), format!("{:?}", w2.0)));
+            }
+            // restore for the steps below
+            copy.read(&mut w2, &mut tmp, &bytes).map_err(|e| ("reused-destination-read-bytes".to_string(), format!("{:?}", e), String::new()))?;
+        }
         // a refused item (over the 64 KiB / 1024-item limits) must leave the builder usable:
         // the finished snapshot holds exactly the accepted items and still survives the wire
         {
